@@ -90,6 +90,15 @@ def set_funceval(f):
     FUNCEVAL[0] = f
 
 
+class MNode:
+    """model parse-tree node: its text and its children (terminal children have no children of their own)"""
+    def __init__(self, text, kids=(), kind=None):
+        self.text, self.kids, self.kind = text, tuple(kids), kind
+
+    def __repr__(self):
+        return "<%s>" % self.text
+
+
 class AEval:
     def __init__(self, atom):
         """atom(node) -> value, or AEval.NO if the node is not a model atom"""
@@ -275,6 +284,42 @@ class AEval:
                 if short == "get":
                     return None
                 raise ModelError("KeyError")
+        if fn == "int" and len(args) == 1 and not e.keywords:
+            v = self.ev(args[0])
+            if isinstance(v, (str, int)):
+                try:
+                    return int(v)
+                except ValueError:
+                    raise ModelError("ValueError")
+        if fn == "range" and 1 <= len(args) <= 3 and not e.keywords:
+            vals = [self.ev(a) for a in args]
+            if len(args) == 1 and isinstance(args[0], ast.Starred):
+                vals = list(self.ev(args[0].value))
+            if all(isinstance(v, int) and not isinstance(v, bool) for v in vals) and 1 <= len(vals) <= 3:
+                try:
+                    return tuple(range(*vals))
+                except ValueError:
+                    raise ModelError("ValueError")
+        if isinstance(e.func, ast.Attribute) and short in ("getText", "getChildren", "INT", "getChildCount", "getChild") and not e.keywords:
+            recv = self.ev(e.func.value)
+            if isinstance(recv, MNode):
+                if short == "getText" and not args:
+                    return recv.text
+                if short == "getChildren" and not args:
+                    return recv.kids
+                if short == "getChildCount" and not args:
+                    return len(recv.kids)
+                if short == "getChild" and len(args) == 1:
+                    i = self.ev(args[0])
+                    if isinstance(i, int) and 0 <= i < len(recv.kids):
+                        return recv.kids[i]
+                if short == "INT":
+                    ints = tuple(k for k in recv.kids if k.kind == "INT")
+                    if not args:
+                        return ints
+                    i = self.ev(args[0])
+                    if isinstance(i, int):
+                        return ints[i] if 0 <= i < len(ints) else None
         if fn == "len" and len(args) == 1:
             return len(self.ev(args[0]))
         if fn == "bool" and len(args) == 1:
@@ -399,8 +444,34 @@ def run_block(stmts, atom, env=None):
         if isinstance(s, ast.Assign) and len(s.targets) == 1 and isinstance(s.targets[0], ast.Name):
             env[s.targets[0].id] = ev.ev(s.value)
             continue
+        if isinstance(s, ast.Assign) and len(s.targets) == 1 and isinstance(s.targets[0], (ast.Tuple, ast.List)) and all(isinstance(t, ast.Name) for t in s.targets[0].elts):
+            v = ev.ev(s.value)
+            if not isinstance(v, (tuple, list)):
+                raise Inconclusive("block interpreter: unpacking of `%s`" % u(s.value)[:40])
+            if len(v) != len(s.targets[0].elts):
+                raise ModelError("ValueError")
+            for t, x in zip(s.targets[0].elts, v):
+                env[t.id] = x
+            continue
         if isinstance(s, ast.If):
             r = run_block(s.body if ev.truth(ev.ev(s.test)) else s.orelse, atom, env)
+            if r[0] != "fall":
+                return r
+            continue
+        if isinstance(s, ast.Try) and not s.finalbody:
+            try:
+                r = run_block(s.body, atom, env)
+                if r[0] == "fall" and s.orelse:
+                    r = run_block(s.orelse, atom, env)
+            except ModelError as exc:
+                r = None
+                for h in s.handlers:
+                    names = [] if h.type is None else [u(x) for x in (h.type.elts if isinstance(h.type, ast.Tuple) else [h.type])]
+                    if h.type is None or str(exc) in names or "Exception" in names or "BaseException" in names or (str(exc) in ("KeyError", "IndexError") and "LookupError" in names):
+                        r = run_block(h.body, atom, env)
+                        break
+                if r is None:
+                    raise
             if r[0] != "fall":
                 return r
             continue
